@@ -49,6 +49,8 @@ LOOPS = {
     ("image_utils", "get_jpeg_dimensions"): "offset += 1 | 2+segment_len  (modelled: C01/Loops.v jpeg_dims)",
     ("sevenzip", "SevenZipReader._parse_main_header"): "each iteration consumes >=1 byte of a finite buffer or breaks",
     ("sevenzip", "SevenZipReader._parse_files_info"): "each iteration consumes >=1 byte of a finite buffer or breaks",
+    ("omml_to_latex", "omml_to_latex.process_element"): "pops the pending-radical stack each iteration (modelled: C19, theorem C19_total)",
+    ("pdf_extractor", "_patched_build_char_map"): "pops the saved-originals list each iteration (modelled: C15)",
     ("client", "SharePointRestClient._get_folders_from_url"): "server-driven pagination (C18: finite pages assumed)",
     ("client", "SharePointRestClient._list_items_paginated"): "server-driven pagination (C18: finite pages assumed)",
 }
@@ -238,7 +240,7 @@ def special_inputs():
             b"Date: Mon, 01 Jan 2024 00:00:00 +0000\nMessage-ID: <1@x.org>\n\nfirst body\n\n")
     bad = (b"From c@x.org Tue Jan  2 00:00:00 2024\nFrom: C <c@x.org>\nTo: B <b@x.org>\nSubject: two\n"
            b"Message-ID: <2@x.org>\n\nsecond body (no Date header)\n")
-    out.append(("mbox", "special:mbox-second-message-fails", good + bad))
+    out.append(("mbox", "special:mbox-second-message-no-date", good + bad))
     out.append(("mbox", "special:mbox-two-good", good + good))
     out.append(("html", "special:html-nul-in-charset", b'<html><head><meta charset="utf\x00-8"></head><body>x</body></html>'))
     out.append(("mhtml", "special:mhtml-nul-in-charset", b'MIME-Version: 1.0\nContent-Type: text/html\n\n'
